@@ -170,6 +170,7 @@ type AdmitCase struct {
 	Remaining   time.Duration // 0 none
 	Syn      bool
 	Salt     int
+	StdOracle bool // ask the model to judge with the Standard's own evaluator (C01)
 	Tags     []string
 }
 
@@ -291,6 +292,8 @@ func (a *AdmitCase) opJSON() J {
 	}
 	if a.Syn {
 		w["ev"] = J{"kind": "syn", "salt": a.Salt}
+	} else if a.StdOracle {
+		w["ev"] = J{"kind": "std"}
 	} else {
 		w["ev"] = J{"kind": "real"}
 	}
